@@ -318,6 +318,29 @@ async fn decode_sweep(_a: &Value) -> Value {
     json!({"inputs": inputs.len(), "panics": panics, "first_panicking_input": first_panic.map(hex::encode), "accepted_as_request": accepted_req, "accepted_as_response": accepted_resp})
 }
 
+/// C15 confinement on real networks: one oversized RPC, then a small one on the same connection.
+async fn oversize_confined(a: &Value) -> Value {
+    let resp_len = a.get("response_body").and_then(|x| x.as_u64());
+    let svc = tower::ServiceExt::boxed_clone(tower::service_fn(move |r: Request<Bytes>| async move {
+        let body = match resp_len { Some(n) if r.body().len() != 7 => Bytes::from(vec![7u8; n as usize]), _ => r.into_body() };
+        Ok::<_, std::convert::Infallible>(Response::new(body))
+    }));
+    let mut sc = Config::default(); sc.max_frame_size = a.get("callee_limit").and_then(|x| x.as_u64()).map(|x| x as usize);
+    let mut cc = Config::default(); cc.max_frame_size = a.get("caller_limit").and_then(|x| x.as_u64()).map(|x| x as usize);
+    let callee = anemo::Network::bind("127.0.0.1:0").server_name("verif").private_key([7; 32]).config(sc).start(svc).expect("callee");
+    let caller = anemo::Network::bind("127.0.0.1:0").server_name("verif").private_key([8; 32]).config(cc).start(echo()).expect("caller");
+    let id = caller.connect(callee.local_addr()).await.expect("connect");
+    let t0 = std::time::Instant::now();
+    let big = tokio::time::timeout(Duration::from_secs(5), caller.rpc(id, Request::new(Bytes::from(vec![1u8; a["body"].as_u64().unwrap() as usize])))).await;
+    let failed = matches!(big, Ok(Err(_)));
+    let hung = big.is_err();
+    tokio::time::sleep(Duration::from_millis(100)).await;
+    let still = caller.peers().contains(&id) && callee.peers().contains(&caller.peer_id());
+    let follow = tokio::time::timeout(Duration::from_secs(5), caller.rpc(id, Request::new(Bytes::from_static(b"follow7")))).await;
+    let follow_ok = matches!(follow, Ok(Ok(ref r)) if r.body().as_ref() == b"follow7");
+    json!({"oversized_rpc_failed": failed, "hung": hung, "still_connected": still, "followup_ok": follow_ok, "elapsed_ms": t0.elapsed().as_millis() as u64})
+}
+
 fn ev(e: &anemo::types::PeerEvent) -> Value {
     match e {
         anemo::types::PeerEvent::NewPeer(p) => json!({"new": p.0[0]}),
@@ -370,7 +393,7 @@ async fn history(args: &Value) -> Value {
 
 fn main() {
     let args: Vec<String> = std::env::args().collect();
-    let multi = matches!(args.get(1).map(|s| s.as_str()), Some("admission") | Some("default_timeouts") | Some("rpc_pairing") | Some("history"));
+    let multi = matches!(args.get(1).map(|s| s.as_str()), Some("admission") | Some("default_timeouts") | Some("rpc_pairing") | Some("history") | Some("oversize_confined"));
     let rt = if multi {
         tokio::runtime::Builder::new_multi_thread().worker_threads(2).enable_all().build().unwrap()
     } else {
@@ -473,6 +496,7 @@ async fn run(args: Vec<String>) {
         "timeout_select" => timeout_select(&a).await,
         "auth" => auth(&a).await,
         "admission" => admission(&a).await,
+        "oversize_confined" => oversize_confined(&a).await,
         "decode_sweep" => decode_sweep(&a).await,
         "history" => history(&a).await,
         "rpc_pairing" => rpc_pairing(&a).await,
